@@ -27,7 +27,7 @@ from runner import Infra, TieBroken, isolated_map, generated_changed
 
 ID = "C05"
 LEAN_MODULES = ["PyYetiVerif.Props.C05", "PyYetiVerif.Props.C05Gen", "PyYetiVerif.Props.C05Struct",
-                "PyYetiVerif.Audit.C05"]
+                "PyYetiVerif.Props.C05TwoPass", "PyYetiVerif.Props.C05Dup", "PyYetiVerif.Audit.C05"]
 AUDIT_FILE = "PyYetiVerif/Audit/C05.lean"
 THEOREMS = [
     "PyYetiVerif.C05." + n
@@ -38,13 +38,18 @@ THEOREMS = [
         "generated_rainflow1_eq_model generated_rainflow2_eq_model generated_entry_eq_model "
         "generated_wrapper_eq_model generated_rainflow2_eq_model_field "
         "generated_c_rainflow1_eq_model generated_c_rainflow2_eq_model generated_c_eq_generated_py "
+        # the two-pass build of c_rain.c (macro not defined): Props/C05TwoPass.lean
+        "generated_c_rainflow1_twopass_eq_model generated_c_rainflow2_twopass_eq_model "
+        "generated_c_twopass_eq_fast twopass_count_eq_length "
         # entry points
         "entry_refuses_iff entry_other_errors entry_impls_agree_partial entry_impls_agree_needs_safe "
         "entry_result_shape wrapper_is_relabel call_history_irrelevant "
         # structure of the table
         "rows_in_closing_order full_cycles_laminar starts_stops_unique residual_half_cycles_chain "
         "duplicate_first range_le_overall duplicate_first_field plateau_erases_point "
-        "duplicate_insertion_not_harmless monotone_points_are_counted"
+        "duplicate_insertion_not_harmless monotone_points_are_counted "
+        # duplicate_insertion for interior points, exact condition: Props/C05Dup.lean
+        "duplicate_insertion_interior"
     ).split()
 ]
 TRUSTED = [
@@ -97,18 +102,21 @@ MANIFEST = {
     "the import block + wrapper of cyclecount.py, harness/translate/c05_crain.py (a C-subset parser) re-emits "
     "`rainflow1`/`rainflow2` of c_rain.c for both macro settings, as shallow embeddings (arrays, indices j/n, pointer "
     "bumps `*rf++`, in-place writes, break, the final slice; failure on any out-of-range index, unwritten cell or "
-    "exhausted fuel) and Lean proves for all inputs that the Python programs and the C programs of the shipped "
-    "configuration (USE_FASTER_RAINFLOW_ROUTINE defined) never fail and compute the model's table "
-    "(generated_*_eq_model, generated_c_*_eq_model, generated_c_eq_generated_py), so every theorem holds of what "
-    "the source says now. (3) Entry points: ValueError iff not a vector of >= 2 points, result shape, the wrapper is "
+    "exhausted fuel) and Lean proves for all inputs that the Python programs and the C programs of BOTH "
+    "configurations (USE_FASTER_RAINFLOW_ROUTINE defined = shipped, and the two-pass build without it, whose tables "
+    "are allocated with exactly the row count pass one has counted: the rows written so far are a prefix of the final "
+    "table) never fail and compute the model's table (generated_*_eq_model, generated_c_*_eq_model, "
+    "generated_c_*_twopass_eq_model, generated_c_twopass_eq_fast, generated_c_eq_generated_py), so every theorem "
+    "holds of what the source says now. A repeated interior point is kept (zero half cycle) iff it is the last "
+    "point, otherwise both copies are erased as one zero full cycle (duplicate_insertion_interior). (3) Entry points: ValueError iff not a vector of >= 2 points, result shape, the wrapper is "
     "a relabelling, results do not depend on the call history. Tie: the translator (regenerated and re-proved every "
     "run) + exact correspondence of model, generated programs (bit for bit at IEEE doubles, including non-dyadic "
     "values) and entry model with py_rain, gcc-built c_rain (both macro settings) and the wrapper over containers, "
     "dtypes, shapes and call sequences.",
     "level_note": "Trusted: Lean kernel; propext, Classical.choice, Quot.sound; the Python harness and translator; gcc; "
     "numpy's array conversion and pandas' DataFrame constructor (observed, not modelled). The C entry function "
-    "(PyArg_ParseTupleAndKeywords, PyArray_FROM_OTF, the ndim/L test) and the two-pass C variant (macro undefined: "
-    "translated and compared bit for bit, not proved) are tied by correspondence only. Theorems are over exact arithmetic: for doubles whose differences round, C and Python "
+    "(PyArg_ParseTupleAndKeywords, PyArray_FROM_OTF, the ndim/L test) is tied by correspondence only (the two-pass C "
+    "variant is proved like the shipped one and additionally compared bit for bit with its own gcc build). Theorems are over exact arithmetic: for doubles whose differences round, C and Python "
     "perform identical IEEE operations (checked bit for bit against the translated program) but agreement with the "
     "real-number ASTM procedure is not claimed. 'largest range is always counted' is proved for true reversal "
     "sequences only (`[0,1,2]` shows the hypothesis is necessary). The two implementations agree only for dtypes that "
@@ -122,13 +130,15 @@ PARTIAL = (
     "entry_impls_agree (py_rain and c_rain are the same function of (peaks, getoffsets)) is proved only for arrays "
     "whose dtype casts safely to float64 (entry_impls_agree_partial); entry_impls_agree_needs_safe shows the "
     "hypothesis is necessary: for np.longdouble / complex / object arrays c_rain raises TypeError where py_rain "
-    "returns a table. duplicate_insertion is false as first stated (a repeated interior point is erased, not just "
-    "recorded as a zero-range entry): proved are duplicate_first, plateau_erases_point and the counterexample "
-    "duplicate_insertion_not_harmless. c_rain.c: rainflow1/rainflow2 are translated for both macro settings; the "
-    "refinement proof is done for the shipped setting (USE_FASTER_RAINFLOW_ROUTINE defined: generated_c_rainflow1/2_eq_model, "
-    "which also pin `shippedFast = true`), not for the two-pass variant without the macro (it needs one more invariant: "
-    "the rows written so far are a prefix of the final table whose length pass one has counted); the C entry function "
-    "`rainflow` (O|p parsing, PyArray_FROM_OTF) is modelled by hand (cEntry) and tied by correspondence."
+    "returns a table. duplicate_insertion is false as first stated; what is true is proved in full: duplicate_first "
+    "(first point: one zero half cycle in front), duplicate_insertion_interior (a copy of an interior point whose "
+    "neighbour below on the stack differs is KEPT as a zero half cycle iff it is the last point of the input, and "
+    "ERASED together with the original as one zero FULL cycle as soon as any point follows), plateau_erases_point, "
+    "the counterexample duplicate_insertion_not_harmless; not covered: a run of three or more equal points. "
+    "c_rain.c: rainflow1/rainflow2 are translated AND proved equal to the model for both macro settings "
+    "(generated_c_rainflow1/2_eq_model for the shipped one, which also pin `shippedFast = true`; "
+    "generated_c_rainflow1/2_twopass_eq_model for the two-pass build); the C entry function `rainflow` (O|p parsing, "
+    "PyArray_FROM_OTF) is modelled by hand (cEntry) and tied by correspondence."
 )
 
 
